@@ -411,6 +411,10 @@ where
         assert!(!b.is_empty(), "cannot divide by empty polynomial");
         assert!(b[0] != E::ZERO, "cannot divide polynomial by zero");
     }
+    if a.is_empty() {
+        // an empty dividend is the zero polynomial: the quotient is zero
+        return vec![E::ZERO];
+    }
 
     let mut result = vec![E::ZERO; apos - bpos + 1];
     for i in (0..result.len()).rev() {
